@@ -36,6 +36,33 @@ def arr(rs, container="array"):
     return np.array([fl(r) for r in rs], dtype=float)
 
 
+def xoff(c):
+    """Optional exact translation of the time axis: every abscissa-like input is moved by sign * 2**power (exactly
+    representable together with the dyadic inputs), every abscissa-like output is moved back before it is recorded, so the
+    specification judges the untranslated problem.  For selections, repeats, interpolation on an explicit grid and matching
+    all intermediate differences of abscissae are exact, so the result must be the same to the last bit."""
+    o = c.get("xoff")
+    return 0.0 if not o else o[0] * 2.0 ** o[1]
+
+
+def xarr(rs, container, off):
+    a = arr(rs, container)
+    if not off:
+        return a
+    if isinstance(a, list):
+        return [v + (int(off) if isinstance(v, int) else off) for v in a]
+    return a + (int(off) if a.dtype.kind in "iu" else off)
+
+
+def xvec(v, off):
+    if not off:
+        return vec(v)
+    try:
+        return vec(np.asarray(v, dtype=float) - off)
+    except Exception:
+        return [[5, 0, 0]]
+
+
 def opt(r):
     return None if r == NONE else fl(r)
 
@@ -224,27 +251,28 @@ def wrun(x, y, f):
     return oc, w, (snap(w) == before)
 
 
-def wfields(w, oc, ref=True, orig=False):
+def wfields(w, oc, ref=True, orig=False, off=0.0):
     d = {}
     ok = oc == "ok"
     g = guarded(lambda: (w.get(), w.get_reference(), w.get_original()))[1] if ok else None
-    d["wx"], d["wy"] = (vec(g[0][0]), vec(g[0][1])) if g else ([], [])
+    d["wx"], d["wy"] = (xvec(g[0][0], off), vec(g[0][1])) if g else ([], [])
     if ref:
-        d["wrx"], d["wry"] = (vec(g[1][0]), vec(g[1][1])) if g else ([], [])
+        d["wrx"], d["wry"] = (xvec(g[1][0], off), vec(g[1][1])) if g else ([], [])
     if orig:
-        d["wox"], d["woy"] = (vec(g[2][0]), vec(g[2][1])) if g else ([], [])
+        d["wox"], d["woy"] = (xvec(g[2][0], off), vec(g[2][1])) if g else ([], [])
     d["wkind"] = (kind(g[0][0]) if kind(g[0][0]) == kind(g[0][1]) else kind(g[0][0]) + "/" + kind(g[0][1])) if g else "none"
     return d
 
 
 # ---------------------------------------------------------------------------------------------- C12
 def ex_repeat(c):
-    x, y = arr(c["x"], c.get("container", "array")), arr(c["y"], c.get("container", "array"))
+    off = xoff(c)
+    x, y = xarr(c["x"], c.get("container", "array"), off), arr(c["y"], c.get("container", "array"))
     oc, o = guarded(lambda: proc.repeat(x, y, c["r"]))
     woc, w, _ = wrun(x, y, lambda w: w.repeat(c["r"]))
     e = dict(c)
-    e.update(outcome=oc, outx=vec(o[0]) if oc == "ok" else [], outy=vec(o[1]) if oc == "ok" else [], w_outcome=woc)
-    e.update(wfields(w, woc))
+    e.update(outcome=oc, outx=xvec(o[0], off) if oc == "ok" else [], outy=vec(o[1]) if oc == "ok" else [], w_outcome=woc)
+    e.update(wfields(w, woc, off=off))
     return e
 
 
@@ -264,30 +292,32 @@ def ex_repeat2(c):
 
 # ---------------------------------------------------------------------------------------------- C11
 def ex_truncate(c):
-    x, y = arr(c["x"]), arr(c["y"])
-    l, r = fl(c["left"]), fl(c["right"])
+    off = xoff(c)
+    x, y = xarr(c["x"], "array", off), arr(c["y"])
+    l, r = fl(c["left"]) + (0.0 if c["lr"] else off), fl(c["right"]) + (0.0 if c["rr"] else off)
     oc, o = guarded(lambda: proc.truncate(x, y, l, r, c["lr"], c["rr"]))
     woc, w, unch = wrun(x, y, lambda w: w.truncate_by_value(l, r, x_left_as_ratio=c["lr"], x_right_as_ratio=c["rr"]))
     e = dict(c)
-    e.update(outcome=oc, outx=vec(o[0]) if oc == "ok" else [], outy=vec(o[1]) if oc == "ok" else [], w_outcome=woc, w_unchanged=unch)
-    e.update(wfields(w, woc))
+    e.update(outcome=oc, outx=xvec(o[0], off) if oc == "ok" else [], outy=vec(o[1]) if oc == "ok" else [], w_outcome=woc, w_unchanged=unch)
+    e.update(wfields(w, woc, off=off))
     return e
 
 
 def ex_slice_value(c):
-    x, y = arr(c["x"]), arr(c["y"])
+    off = xoff(c)
+    x, y = xarr(c["x"], "array", off), arr(c["y"])
     w = Weaver(x, y)
     kw = {}
     if c["start"] != NONE:
-        kw["start"] = fl(c["start"])
+        kw["start"] = fl(c["start"]) + off
     if c["stop"] != NONE:
-        kw["stop"] = fl(c["stop"])
+        kw["stop"] = fl(c["stop"]) + off
     if c.get("explicit_none"):
         kw.setdefault("start", None)
         kw.setdefault("stop", None)
     oc, o = guarded(lambda: w.slice_by_value(step=c["step"], **kw))
     e = dict(c)
-    e.update(outcome=oc, outx=vec(o[0]) if oc == "ok" else [], outy=vec(o[1]) if oc == "ok" else [])
+    e.update(outcome=oc, outx=xvec(o[0], off) if oc == "ok" else [], outy=vec(o[1]) if oc == "ok" else [])
     return e
 
 
@@ -376,7 +406,8 @@ def ex_shiftscale(c):
 
 # ---------------------------------------------------------------------------------------------- C13
 def ex_interp(c):
-    x, y, q = arr(c["x"], c.get("xcontainer", "array")), arr(c["y"]), arr(c["q"], c.get("qcontainer", "array"))
+    off = xoff(c)
+    x, y, q = xarr(c["x"], c.get("xcontainer", "array"), off), arr(c["y"]), xarr(c["q"], c.get("qcontainer", "array"), off)
     kw = {} if c["left"] == NONE else {"left": fl(c["left"])}
     coc, co = guarded(lambda: proc.interpolate(x, y, q, method="constant", **kw))
     loc, lo = guarded(lambda: proc.interpolate(x, y, q, method="linear"))
@@ -627,15 +658,16 @@ import traffic_weaver.match as match_mod  # noqa: E402
 def match_call(c, x, y):
     kw = dict(fixed_points_finding_strategy=c["strategy"], target_function_integral_method=c["trule"],
               reference_function_integral_method=c["rrule"], alpha=c["alpha_f"] if "alpha_f" in c else fl(c["alpha"]))
+    off = xoff(c)
     if c["mode"] == "positions":
-        kw["fixed_points_in_x"] = [fl(r) for r in c["given"]]
+        kw["fixed_points_in_x"] = [fl(r) + off for r in c["given"]]
     elif c["mode"] == "indices":
         kw["fixed_points_indices_in_x"] = list(c["given"])
-    return match_mod.integral_matching_reference_stretch(x, y, arr(c["xref"]), arr(c["yref"]), **kw)
+    return match_mod.integral_matching_reference_stretch(x, y, xarr(c["xref"], "array", off), arr(c["yref"]), **kw)
 
 
 def ex_match(c):
-    x, y = arr(c["x"], c.get("container", "array")), arr(c["y"], c.get("ycontainer", c.get("container", "array")))
+    x, y = xarr(c["x"], c.get("container", "array"), xoff(c)), arr(c["y"], c.get("ycontainer", c.get("container", "array")))
     y0 = np.array(y, dtype=float, copy=True)
     oc, o = guarded(lambda: match_call(c, x, y))
     oc2, o2 = guarded(lambda: match_call(c, x, o)) if oc == "ok" else ("skipped", None)
